@@ -49,7 +49,8 @@ Definition ss_new (c : ss_config) : segsizes :=
      cd_rem := 1;
      cd_max := cfg_cooldown c |}.
 
-(* payload_size.min(u16::MAX as usize) as u16; min_ss = min_ss.max(p); max_ss = max_ss.max(min_ss) *)
+(* let p = payload_size.min(u16::MAX as usize) as u16; min_ss = min_ss.max(p.min(max_ss));
+   max_ss is not touched (it starts at the ceiling and is only lowered by failed probes). *)
 Definition on_payload_delivered (s : segsizes) (payload_size : Z) : segsizes :=
   let p := (Z.min payload_size U16_MAX) mod M16 in
   {| min_ss := Z.max (min_ss s) (Z.min p (max_ss s)); max_ss := max_ss s;
@@ -196,6 +197,19 @@ Definition c14_search_ok (c : ss_config) (P : Z) (ob : option (Z * Z * Z * bool)
   | None => false
   end.
 
+(* mtu_d3: a payload of n bytes from the peer reported right after `new`:
+   (max_ss before, mss after, max_ss after) *)
+Definition mtu_d3 (c : ss_config) (n : Z) : Z * Z * Z :=
+  let s0 := ss_new c in
+  let s1 := on_payload_delivered s0 n in
+  (max_ss s0, mss s1, max_ss s1).
+
+(* whatever size the peer used, the segment size stays between the protocol minimum and the
+   ceiling the configured link MTU implies *)
+Definition c14_d3_ok (c : ss_config) (ob : Z * Z * Z) : bool :=
+  let '(ceil, m, mx) := ob in
+  (ceil =? ceiling_of c) && (floor_of c <=? m) && (m <=? mx) && (mx <=? ceil).
+
 (* ops a Rust caller can express: usize arguments are >= 0, config fields are u16 *)
 Definition op_in_domain (o : ss_op) : bool :=
   match o with
@@ -212,15 +226,13 @@ Record c14_acc := {
   a_ceil : Z;                  (* ceiling_of config *)
   a_lo : Z; a_hi : Z;          (* a path size P is consistent with the outcomes so far iff a_lo <= P <= a_hi *)
   a_maxsent : Z;               (* largest size returned by next_segment_size so far *)
-  a_search : bool;             (* search discipline held so far *)
-  a_ceil_ok : bool;            (* no Delivered n with n > ceiling so far *)
-  a_big : bool                 (* a Delivered n with n >= 65535 was fed *)
+  a_search : bool              (* search discipline held so far *)
 }.
 
 Definition c14_acc0 (c : ss_config) : c14_acc :=
   {| a_min := floor_of c; a_max := ceiling_of c; a_cd := 1; a_cdmax := cfg_cooldown c;
      a_ceil := ceiling_of c; a_lo := floor_of c; a_hi := ceiling_of c; a_maxsent := 0;
-     a_search := true; a_ceil_ok := true; a_big := false |}.
+     a_search := true |}.
 
 (* Search discipline: outcomes are reported only for sizes this endpoint was handed by
    next_segment_size (a segment may be shorter than the size handed out; n = 0 is the
@@ -229,32 +241,29 @@ Definition c14_acc0 (c : ss_config) : c14_acc :=
 Definition c14_acc_next (a : c14_acc) (o : ss_op) (mn mx : Z) (ret : option Z) : c14_acc :=
   match o with
   | OpNew c =>
-      {| a_min := mn; a_max := mx; a_cd := 1; a_cdmax := cfg_cooldown c; a_ceil := a_ceil a;
+      {| a_min := mn; a_max := mx; a_cd := 1; a_cdmax := cfg_cooldown c; a_ceil := ceiling_of c;
          a_lo := a_lo a; a_hi := a_hi a; a_maxsent := a_maxsent a;
-         a_search := false; a_ceil_ok := false; a_big := a_big a |}
+         a_search := false |}
   | OpDelivered n =>
       let lo := Z.max (a_lo a) n in
       {| a_min := mn; a_max := mx; a_cd := a_cd a; a_cdmax := a_cdmax a; a_ceil := a_ceil a;
          a_lo := lo; a_hi := a_hi a; a_maxsent := a_maxsent a;
-         a_search := a_search a && (n <=? a_maxsent a) && (lo <=? a_hi a);
-         a_ceil_ok := a_ceil_ok a && (n <=? a_ceil a);
-         a_big := a_big a || (U16_MAX <=? n) |}
+         a_search := a_search a && (n <=? a_maxsent a) && (lo <=? a_hi a) |}
   | OpProbeFailed n =>
       let hi := Z.min (a_hi a) (n - 1) in
       {| a_min := mn; a_max := mx; a_cd := a_cd a; a_cdmax := a_cdmax a; a_ceil := a_ceil a;
          a_lo := a_lo a; a_hi := hi; a_maxsent := a_maxsent a;
-         a_search := a_search a && (n <=? a_maxsent a) && (a_lo a <=? hi);
-         a_ceil_ok := a_ceil_ok a; a_big := a_big a |}
+         a_search := a_search a && (n <=? a_maxsent a) && (a_lo a <=? hi) |}
   | OpNextSize =>
       {| a_min := mn; a_max := mx;
          a_cd := if a_cd a =? 0 then a_cdmax a else sat_sub (a_cd a) 1; a_cdmax := a_cdmax a;
          a_ceil := a_ceil a; a_lo := a_lo a; a_hi := a_hi a;
          a_maxsent := match ret with Some r => Z.max (a_maxsent a) r | None => a_maxsent a end;
-         a_search := a_search a; a_ceil_ok := a_ceil_ok a; a_big := a_big a |}
+         a_search := a_search a |}
   | OpDisarm =>
       {| a_min := mn; a_max := mx; a_cd := 0; a_cdmax := a_cdmax a; a_ceil := a_ceil a;
          a_lo := a_lo a; a_hi := a_hi a; a_maxsent := a_maxsent a;
-         a_search := a_search a; a_ceil_ok := a_ceil_ok a; a_big := a_big a |}
+         a_search := a_search a |}
   end.
 
 (* what next_segment_size may return, given the sizes before the call and the cooldown *)
@@ -279,8 +288,8 @@ Definition c14_obs_check (a : c14_acc) (o : ss_op) (a' : c14_acc) (mn mx : Z) (p
   (Bool.eqb pr (mn <? mx)) &&
   (* sizes handed out *)
   c14_ret_check a o mn mx ret &&
-  (* ceiling: as long as no payload above the ceiling was reported delivered *)
-  (if a_ceil_ok a' then mx <=? a_ceil a' else true) &&
+  (* ceiling of the configured link MTU: always, whatever sizes were reported delivered *)
+  (mx <=? a_ceil a') &&
   (* search: every path size P consistent with the outcomes so far stays inside [min_ss, max_ss] *)
   (if a_search a' then (mn <=? a_lo a') && (a_hi a' <=? mx) else true).
 
@@ -290,10 +299,7 @@ Fixpoint c14_obs_ok (a : c14_acc) (ops : list ss_op) (obs : list (option ss_obs)
   | o :: ops', Some (mn, mx, pr, ret) :: obs' =>
       let a' := c14_acc_next a o mn mx ret in
       op_in_domain o && c14_obs_check a o a' mn mx pr ret && c14_obs_ok a' ops' obs'
-  | o :: _, [None] =>
-      (* a panic is acceptable only once a payload >= 65535 was reported delivered *)
-      op_in_domain o &&
-      (a_big a || match o with OpDelivered n => U16_MAX <=? n | _ => false end)
+  (* a panic ([None]) is never acceptable *)
   | _, _ => false
   end.
 
